@@ -94,6 +94,14 @@ C12_FailureRefunds == Step /\ Ok /\ (E.act = "timeout" \/ (E.act = "ack" /\ ~E.a
   /\ chan' = Bump(chan, c, d, -a, 0)
   /\ \/ held' = [held EXCEPT ![d] = @ - a] /\ ubal' = [ubal EXCEPT ![s][d] = @ + a]
      \/ d = "tok" /\ tokFails /\ held' = held /\ ubal' = ubal
+\* a timeout or an error acknowledgement of one of our packets is always settled: the handler may not abort (the
+\* relayer could only retry, the escrow would stay locked).  The one expected refusal is a cw20 packet of a
+\* deployment upgraded from the pre-allow-list format without a default limit: the token cannot be paid out at all.
+C12_FailureMustSettle == Step /\ ~legacy /\ (E.act = "timeout" \/ (E.act = "ack" /\ ~E.args.success))
+                           /\ (E.args.denom # "tok" \/ allow.listed \/ defaultGas # -1)
+                           /\ E.args.ch \in Chan /\ E.args.denom \in Denom
+                           /\ chan[E.args.ch][E.args.denom].out >= E.args.amt      \* (a lying counterparty may have redeemed it already)
+                           => Ok
 C12_SuccessAckKeeps == Step /\ IsOk("ack") /\ E.args.success => chan' = chan /\ held' = held /\ ubal' = ubal /\ out' = <<>>
 C12_OthersKeepBooks == Step /\ E.act \notin {"transfer", "recv", "ack", "timeout", "donate"} /\ ~(legacy /\ E.act = "migrate") =>
   chan' = chan /\ held' = held /\ ubal' = ubal
